@@ -64,6 +64,12 @@ func runC12(c *CaseCtx) *CaseResult {
 		prof.Alpha[0] = uint64(5 + r.Intn(40))
 	}
 	cc.Dig = &prof
+	if c.Case%19 == 17 {
+		// the library's DEFAULT digester (pooled circlehash / blake3 digesters) with a hash-input provider that covers
+		// only part of the key: the keys of one class collide on all four levels at once
+		cc.Dig = nil
+		cc.HipClasses = uint64(3 + r.Intn(12))
+	}
 	limits := []uint32{0, 1, 2, 3, 7, 255}
 	cc.Limit = limits[(c.Case/3)%len(limits)]
 	if c.Case%13 == 12 {
@@ -93,8 +99,8 @@ func runC12(c *CaseCtx) *CaseResult {
 		}
 		installed = true
 		w.ExpectRefusal = func(n *Node, key *Node) bool {
-			if n != root {
-				return false
+			if n != root && w.cb.HipClasses == 0 {
+				return false // nested maps use the default digester: no collisions unless the hash input itself collides
 			}
 			dv, err := w.digestVector(n, key)
 			if err != nil {
